@@ -15,19 +15,19 @@ T = {
     "C04": ("explicit-state", "exhaustive enumeration of (old file incl. damaged ones, new file, range limit, initial target) over the word universe driving the documented update loop against a reference range server (a new multipart boundary per response), long words that need several multi-range requests, and a connection dropped after every number of body bytes of the first chunk response followed by another round on the same zckDL, the client's own header/write callbacks registered behind the library's; the real zckdl main against a loopback HTTP range server in both tiers; thorough: the real zckdl main against a loopback HTTP range server",
             "All pairs of words up to length 3 (plus no source), compression/dictionary variants, range limits and initial target states run the documented procedure over the public API with a reference server; final bytes and the exact multiset of requested ranges are compared with set arithmetic on the reference chunk table.",
             "Words over a small block alphabet; the in-process reference server (drv/scen_update.c) and the loopback server (mc/httpd.py) are trusted; the real zckdl main is exercised only in the thorough tier."),
-    "C05": ("schedule-bounded", "exhaustive enumeration of all 1-cut and 2-cut partitions of well-formed range responses into callback invocations, all missing-chunk subsets, boundary/header spellings (every RFC 2046 boundary character at start/middle/end), per-chunk corruptions incl. digest twins, the application's own callbacks chained behind the library's, fwrite-style call shapes (1,n) / (n,1) / (k,n/k), chunks above 32 KiB",
+    "C05": ("schedule-bounded", "exhaustive enumeration of all 1-cut and 2-cut partitions of well-formed range responses into callback invocations, all missing-chunk subsets, boundary/header spellings (every RFC 2046 boundary character at start/middle/end), per-chunk corruptions incl. digest twins, the application's own callbacks chained behind the library's, fwrite-style call shapes (1,n) / (n,1) / (k,n/k), a dropped first response followed by reset and a new request, chunks above 32 KiB",
             "Every partition with <= 2 cuts (plus all-1-byte and k-byte pieces) of every response format for every non-empty set of missing chunks is fed to the real callbacks; final file bytes, per-chunk flags and return values must equal the reference reassembler's, and nothing outside the requested extents may change.",
             "Responses of 300-600 bytes, parts in request order, at most two cuts exhaustively."),
-    "C06": ("explicit-state", "exhaustive single-byte substitution (all 255 values at every header position), indels with adjusted size field, wrong-recipe digests, bases whose header digest contains 0x00 at byte 0/1/2, and every substitute again under every single allocation failure of the open (allocator seam; plain open, and advanced interface with the failed step retried after zck_clear_error); open verdict on the real reader",
+    "C06": ("explicit-state", "exhaustive single-byte substitution (all 255 values at every header position), indels with adjusted size field, wrong-recipe digests, bases whose header digest contains 0x00 at byte 0/1/2, headers of exactly one and two internal buffers, contexts that validated another file's lead before, and every substitute again under every single allocation failure of the open (allocator seam; plain open, and advanced interface with the failed step retried after zck_clear_error); open verdict on the real reader",
             "For every base file every header position takes every other byte value; every mutant must fail to open in both open paths, and every unmutated reference- or library-written file must open.",
             "Single-byte edits (plus indels and wrong-recipe digests) of the listed base files; hash collisions are not considered; under an allocation failure only 'does not open' is demanded."),
-    "C07": ("explicit-state", "exhaustive enumeration of pinned (type, digest string, length) combinations, every byte value at every digest-string position, digests differing in several bytes at once (xor/sum-preserving pairs, swaps, rotations), setter orders, options set twice, lead validation repetitions, against a three-line reference model",
+    "C07": ("explicit-state", "exhaustive enumeration of pinned (type, digest string, length) combinations, every byte value at every digest-string position, digests differing in several bytes at once (xor/sum-preserving pairs, swaps, rotations), setter orders, options set twice, lead validation repetitions, the file swapped behind the descriptor, the same context handed a file again, against a three-line reference model",
             "Every byte value at every position of the digest string, all listed lengths/types/orders and validate-lead repetitions are executed on the real option setters and lead reader and compared with the acceptance model; single-byte header substitutions are re-run under full pinning.",
             "Model covers orders the API accepts; a refused ordering makes no claim."),
     "C08": ("explicit-state", "exhaustive enumeration of (source damage, target validity subset, copy sequence) over the word universe, re-sealed sources carrying a target chunk's digests with another length, dictionary pairs with the uncompressed-source flag, digest twins, chunks above 32 KiB, ZCK_NO_WRITE set on the target or source context, on the real copy/matching calls",
             "All target words with every subset of chunks pre-valid, all source words with per-chunk damage, truncations and crafted indexes, one or two copy calls; after every call validity flags, extents, untouched bytes and source bytes are compared with reference hashing.",
             "Words up to length 3 over four blocks; at most two sources."),
-    "C09": ("explicit-state", "explicit-state exploration of on-disk states (per-chunk correct/zeroed/flipped/absent, every truncation, reference-written index entries without stored bytes, digest twins, chunks above 32 KiB incl. periodic content) x validation-call histories (incl. partial reads in between) on the real scanner",
+    "C09": ("explicit-state", "explicit-state exploration of on-disk states (per-chunk correct/zeroed/flipped/absent, every truncation, reference-written index entries without stored bytes, digest twins, chunks above 32 KiB incl. periodic content) x validation-call histories (incl. partial reads and chunk requests in between) on the real scanner",
             "Every on-disk state of the listed targets and every history of validate-all / validate-data / find-valid up to the depth, followed by a full read, compared with a reference recomputation from the bytes on disk.",
             "Targets of 3-4 chunks; histories up to length 3 (4 thorough)."),
     "C10": ("explicit-state", "exhaustive enumeration of all 2^N validity markings for N<=10 (12 thorough) chunk tables x range limits, all three-valued (valid/missing/failed) markings of the smaller tables, every ordered pair of markings as two requests on one context, every table also seen through its detached header; large tables at every string-buffer phase; set arithmetic oracle",
@@ -42,13 +42,13 @@ T = {
     "C13": ("explicit-state", "exhaustive enumeration of headers the reference writer can emit within the stated field domains (incl. running sums placed on every 2^63 / 2^64 limit) and their re-sealed field mutations, getter dump compared with the reference parser; the open repeated under every single allocation failure (allocator seam) must refuse or report the same; the zck_read_header tool under every subset of -c -q -f -v, printed fields and chunk rows against the reference parser",
             "Every header in the stated product of digests, flags, optional elements and boundary sizes, plus re-sealed count/width/overflow mutations, is opened by the real reader; on success every getter and the chunk iteration must equal the reference parser, and malformed headers must be refused.",
             "Field values from the listed boundary sets; up to 4 chunks."),
-    "C14": ("explicit-state", "exhaustive enumeration of all chunk-request sequences up to length 4 (5 thorough) over every chunk incl. dictionary and last, and of sequences over the alphabet extended by history operations on the same context (sequential reads, scans, half-buffer requests); state = history replayed on a fresh context",
+    "C14": ("explicit-state", "exhaustive enumeration of all chunk-request sequences up to length 4 (5 thorough) over every chunk incl. dictionary and last, and of sequences over the alphabet extended by history operations on the same context (sequential reads, scans, half-buffer requests); files of every chunk / overall digest type; state = history replayed on a fresh context",
             "Every sequence of data/stored requests up to the depth on every listed file, each request compared with the slice of the original content / stored bytes and with the same request on a fresh context.",
             "Files of 3-4 chunks; sequences up to length 4 (5); results of the history operations themselves are not judged."),
     "C15": ("explicit-state", "exhaustive single-bit flips (all substitutions thorough) of every body byte x every read buffer size 1..chunk+2, and every call history (find-matching, validate, find-valid, chunk requests, pairs) before the read on every still-decompressing mutant, each also with the error cleared after a failed read (recover mode); attribution of returned bytes to chunks via the reference index",
             "Every corruption in the stated space that still decompresses is among the mutants; every read size is tried; no successful read may return a byte of a chunk whose stored bytes mismatch its digest.",
             "zstd files of three data chunks from the block alphabet."),
-    "C16": ("explicit-state", "exhaustive 1-cut and boundary-neighbourhood 2-cut write segmentations, edits at every boundary neighbourhood, rolling-hash hit windows placed at every offset around the effective minimum and maximum; byte-identity, chunk-locality and size-bound oracle",
+    "C16": ("explicit-state", "exhaustive 1-cut and boundary-neighbourhood 2-cut write segmentations, edits at every boundary neighbourhood, rolling-hash hit windows placed at every offset around the effective minimum and maximum; a battery of refused option calls in front of the writes; byte-identity, chunk-locality and size-bound oracle",
             "The same content delivered whole, with every single cut position, every cut pair near chunk boundaries and the k-byte schedules must give byte-identical files; edits at every listed position must leave chunks before and after the edit region identical.",
             "Contents of the medium generator families; rolling-hash behaviour on other data not covered."),
     "C17": ("deviation-bounded", "deviation-bounded enumeration of malformed header lines (incl. a grammar product of the boundary parameter) and response bodies (<=2 deviations from well-formed, every truncation, all byte strings of length <=2) x fragmentations, and pairs of responses on one zckDL with every client action in between (nothing, range set again, reset, reset without range), under ASan/UBSan",
@@ -60,7 +60,7 @@ T = {
     "C19": ("schedule-bounded", "stateless exploration of all thread schedules with <=2 preemptions (thorough: 4 for pairs, 2 for triples) at system-call granularity under a cooperative scheduler, one fresh process per schedule, plus a free-running ThreadSanitizer pass of the same bodies for both checksum backends",
             "All schedules within the preemption bound of every pair of ten scenarios (copy, write, read, validate, plain and multipart download callbacks, whole life of a reading and of a writing context, name/range/error/matching calls, a context switched to ZCK_NO_WRITE) are executed on the real code with the scheduler deciding at every wrapped system call; each thread's results must equal its serial baseline; a separate TSan build reports unsynchronised accesses.",
             "Interleavings only at system-call granularity in pass 1; finer races rely on TSan's happens-before analysis."),
-    "C20": ("explicit-state", "exhaustive enumeration of every value below 2^21 (round trip) and every byte string of length <=3 plus long strings with the last three positions enumerated, flush against a guard page, and cursors already past the end of the buffer, against exact integer arithmetic",
+    "C20": ("explicit-state", "exhaustive enumeration of every value below 2^21 (round trip) and every byte string of length <=3 plus long strings with the last three positions enumerated, flush against a guard page, cursors already past the end of the buffer, on fresh, writing and reading contexts, against exact integer arithmetic",
             "Every string in the stated space is decoded by the real decoder placed against an inaccessible page at every listed (offset, limit) combination and compared with exact arithmetic; every value in the stated range is round-tripped.",
             "Internal codec functions are called directly (the property is about this seam)."),
 }
